@@ -12,7 +12,6 @@ oracle of pipegen.Oracle, which is computed from the events alone."""
 import json
 import os
 
-import clustergen
 import common as C
 import pipegen as G
 
@@ -28,7 +27,7 @@ def _phase1(chk, cases, name):
     if lines:
         impl = chk.run_impl("cluster", "TestVerifProbeCluster", lines, name=name + "_cluster")
         for (i, c), out in zip(index, impl):
-            per[i][c] = clustergen.parse_out(out)
+            per[i][c] = G.parse_cluster_out(out)
     return per
 
 
@@ -132,7 +131,7 @@ def run(chk, failed):
     for _ in range(n):
         cases.append(G.gen_case(chk.rng))
     chk.rule = (
-        "one life of a small Burrow per case: 1-2 clusters, each with a clustergen scenario run by the real cluster module "
+        "one life of a small Burrow per case: 1-2 clusters, each with a scenario of 1-6 cycles (own generator) run by the real cluster module "
         "configured through Configure with a client-profile kafka-version drawn from 19 legal strings (the scripted broker "
         "answers in the wire format of the request version), (1-6 getOffsets cycles: leader "
         "loss/change, failing Topics/Partitions/Leader/broker calls, per-partition errors, topics vanishing / re-appearing, "
